@@ -95,3 +95,62 @@ Theorem model_passes_spec :
   forall i, Concrete.spec_ok i (Concrete.get_proof_info i) = true.
 Proof. exact Proofs.C32.AtConst.model_passes_spec. Qed.
 Print Assumptions model_passes_spec.
+
+(* ---------- proving rounds: proveTransactions over the unproven transactions of one round ----------
+   tx_input r t: what getProofInfo sees for transaction t of round r — the transaction's own
+     height/confirmations and the ROUND's factor, relay epoch and difficulties
+   tx_outcome r t = Submitted req when get_proof_info (tx_input r t) = Info true acc req with
+     acc >= req, Skipped otherwise
+   tx_clean r t: guards (tx_input r t), no injected chain failure, the submitter accepts *)
+
+(* 8. no state across transactions: a round is the per-transaction function mapped over its
+   transactions (so every outcome is independent of which transactions precede it, of their
+   number and of their order) ... *)
+Theorem round_is_map :
+  forall r txs, (forall t, In t txs -> tx_clean r t) ->
+    run_txs difficultyEpochLength r txs = (map (tx_outcome difficultyEpochLength r) txs, Done).
+Proof. exact Proofs.C32.AtConst.round_is_map. Qed.
+Print Assumptions round_is_map.
+
+(* 9. ... and for ANY round (failing chain calls, failing submitter, unguarded inputs) the
+   outcomes are that map over the processed prefix, the whole list when the round ends normally *)
+Theorem round_prefix :
+  forall r txs, exists n, (n <= length txs)%nat /\
+    fst (run_txs difficultyEpochLength r txs) = map (tx_outcome difficultyEpochLength r) (firstn n txs) /\
+    (snd (run_txs difficultyEpochLength r txs) = Done -> n = length txs).
+Proof. exact Proofs.C32.AtConst.round_prefix. Qed.
+Print Assumptions round_prefix.
+
+(* 10. a transaction is submitted iff its proof range is in the relay's range and its
+   accumulated confirmations reach its OWN required number — the number of theorems 2 and 3,
+   computed with the round's factor — and it is submitted with exactly that number *)
+Theorem round_submission_exact :
+  forall r t, guards (tx_input r t) -> t_fail t = NoFail ->
+    let i := tx_input r t in
+    (forall q, tx_outcome difficultyEpochLength r t = Submitted q <->
+               in_relay_range difficultyEpochLength i /\
+               Concrete.get_proof_info i = Info true (i_conf i) q /\ q <= i_conf i) /\
+    (tx_outcome difficultyEpochLength r t = Skipped <->
+       ~ in_relay_range difficultyEpochLength i \/
+       exists q, Concrete.get_proof_info i = Info true (i_conf i) q /\ i_conf i < q).
+Proof. exact Proofs.C32.AtConst.round_submission_exact. Qed.
+Print Assumptions round_submission_exact.
+
+(* 11. the executable round property used by the correspondence check is sound: on a round of
+   clean transactions it forces a normal end and, for every transaction, that a submitted proof
+   is in range with a minimal sufficient number of confirmations not above the accumulated ones,
+   and that a skipped transaction is out of range or has not accumulated enough work ... *)
+Theorem round_ok_sound :
+  forall r txs outs e, (forall t, In t txs -> tx_clean r t) ->
+    Concrete.round_ok r txs outs e = true ->
+    e = Done /\ Forall2 (fun t o => tx_prop difficultyEpochLength (tx_input r t) o) txs outs.
+Proof. exact Proofs.C32.AtConst.round_ok_sound. Qed.
+Print Assumptions round_ok_sound.
+
+(* 12. ... and holds of every round of the model, for ALL rounds *)
+Theorem round_model_passes :
+  forall r txs,
+    Concrete.round_ok r txs (fst (run_txs difficultyEpochLength r txs))
+                            (snd (run_txs difficultyEpochLength r txs)) = true.
+Proof. exact Proofs.C32.AtConst.round_model_passes. Qed.
+Print Assumptions round_model_passes.
